@@ -287,6 +287,23 @@ func putUint(out []byte, u uint64, size int, little bool, fill byte) []byte {
 	return append(out, b...)
 }
 
+// floatHasInt: "if the float has an exact representation as an integer"
+// (§3.4.3), i.e. it is integral and within [-2^63, 2^63).
+func floatHasInt(f float64) bool {
+	return f == math.Floor(f) && f >= -0x1p63 && f < 0x1p63
+}
+
+// mayBeNumeral: every Lua numeral contains at least one decimal digit, so a
+// string without one can never be converted to a number.
+func mayBeNumeral(s string) bool {
+	for i := 0; i < len(s); i++ {
+		if s[i] >= '0' && s[i] <= '9' {
+			return true
+		}
+	}
+	return false
+}
+
 // PackResult is the reference outcome of string.pack.
 type PackResult struct {
 	St     Status
@@ -323,10 +340,17 @@ func Pack(p Platform, f Format, vals []lv.V) PackResult {
 				return PackResult{St: Err, Reason: "missing-value"}
 			}
 			if v.K != lv.Int {
-				if v.K == lv.Float || v.K == lv.Str {
+				switch {
+				case v.K == lv.Float && floatHasInt(v.F):
+					// §3.4.3 float->integer conversion applies "where an
+					// integer is expected"; whether pack does it is left open
+					return PackResult{St: Unspec, Reason: "coercion"}
+				case v.K == lv.Float:
+					return PackResult{St: Err, Reason: "float-without-integer-representation"}
+				case v.K == lv.Str && mayBeNumeral(v.S):
 					return PackResult{St: Unspec, Reason: "coercion"}
 				}
-				return PackResult{St: Err, Reason: "not-a-number"}
+				return PackResult{St: Err, Reason: "not-an-integer"}
 			}
 			if op.Code == 'i' {
 				if op.Size < 8 {
@@ -364,7 +388,10 @@ func Pack(p Platform, f Format, vals []lv.V) PackResult {
 					return PackResult{St: Unspec, Reason: "inexact-int-to-float"}
 				}
 			case lv.Str:
-				return PackResult{St: Unspec, Reason: "coercion"}
+				if mayBeNumeral(v.S) {
+					return PackResult{St: Unspec, Reason: "coercion"}
+				}
+				return PackResult{St: Err, Reason: "not-a-number"}
 			default:
 				return PackResult{St: Err, Reason: "not-a-number"}
 			}
@@ -421,6 +448,10 @@ func Pack(p Platform, f Format, vals []lv.V) PackResult {
 			}
 		}
 	}
+	if vi < len(vals) {
+		// values without an option: the manual does not say they are ignored
+		return PackResult{St: Unspec, Reason: "extra-values"}
+	}
 	return PackResult{St: OK, Bytes: out}
 }
 
@@ -449,6 +480,12 @@ type UnpackResult struct {
 	Reason string
 	Vals   []lv.V
 	Next   int // 1-based index of the first unread byte
+	// MaxLen is the largest length prefix of an "s" option that was read
+	// (callers use it to keep allocation bombs out of bulk families).
+	MaxLen uint64
+	// Starts[k] is the 0-based offset at which the data of f.Ops[k] starts
+	// (after its alignment padding), for the ops that were reached.
+	Starts []int
 }
 
 // getUint reads size bytes as an unsigned number: low 64 bits, and whether all
@@ -477,12 +514,18 @@ func getUint(b []byte, little bool) (u uint64, hiAllZero, hiAllFF bool) {
 	return
 }
 
-// Unpack reads data starting at the 0-based offset pos.
-func Unpack(p Platform, f Format, data []byte, pos int) UnpackResult {
+// Unpack reads data starting at the 0-based offset pos.  Alignment is
+// computed on offsets relative to base (0 = relative to the start of the data
+// string, pos = relative to the first byte read); the manual speaks of "an
+// offset" without saying which, so callers accept both readings.
+func Unpack(p Platform, f Format, data []byte, pos, base int) (res UnpackResult) {
 	if f.St != OK {
 		return UnpackResult{St: f.St, Reason: f.Reason}
 	}
 	var vals []lv.V
+	var maxLen uint64
+	var starts []int
+	defer func() { res.MaxLen = maxLen; res.Starts = starts }()
 	off := pos
 	short := func(op Op) UnpackResult {
 		if op.HasValue() {
@@ -493,10 +536,11 @@ func Unpack(p Platform, f Format, data []byte, pos int) UnpackResult {
 		return UnpackResult{St: Unspec, Reason: "padding-beyond-data"}
 	}
 	for _, op := range f.Ops {
-		off += op.padding(off)
+		off += op.padding(off - base)
 		if off > len(data) {
 			return short(op)
 		}
+		starts = append(starts, off)
 		switch op.Code {
 		case 'X':
 		case 'x':
@@ -552,10 +596,14 @@ func Unpack(p Platform, f Format, data []byte, pos int) UnpackResult {
 			off += op.Size
 			if !hi0 {
 				// a length of 2^64 or more: certainly more than the data holds
+				maxLen = math.MaxUint64
 				return UnpackResult{St: Err, Reason: "data-too-short"}
 			}
 			if op.Size < 8 {
 				u &= uint64(1)<<(8*uint(op.Size)) - 1
+			}
+			if u > maxLen {
+				maxLen = u
 			}
 			if u > uint64(len(data)-off) {
 				return UnpackResult{St: Err, Reason: "data-too-short"}
